@@ -16,6 +16,7 @@ import ast
 import os
 
 from .. import translate
+from . import normalize
 from .eg import CONSTS, EG_FILE, LAG_FILE, Expr, find_func, one, rat_lit  # noqa: F401  (eg registers its own lifter)
 
 
@@ -263,12 +264,12 @@ def lift_egloop(repo):
     cenv = {k: (v[0], v[1]) for k, v in CONSTS.items()}
 
     src = open(os.path.join(repo, EG_FILE)).read()
-    tree = ast.parse(src)
+    tree = normalize.parse(src)
     fit = find_func(tree, "ExponentiatedGradient", "fit")
     canonicalise(fit, FIT_RULES)
     fbody = strip_logging(fit.body)
     loop = one([n for n in fbody if isinstance(n, ast.For) and ast.unparse(n.target) == "t"], "`for t in ...` loop in fit")
-    if ast.unparse(loop.iter) != "range(0, self.max_iter)" or loop.orelse:
+    if ast.unparse(loop.iter) != "range(self.max_iter)" or loop.orelse:
         raise U(f"loop header changed: for {ast.unparse(loop.target)} in {ast.unparse(loop.iter)}")
     body = strip_logging(loop.body)
     li = fbody.index(loop)
@@ -460,7 +461,7 @@ def lift_egloop(repo):
 
     # ---- _lagrangian.py: eval_gap / best_h ---------------------------------------------------------------------------------
     src = open(os.path.join(repo, LAG_FILE)).read()
-    tree = ast.parse(src)
+    tree = normalize.parse(src)
     eg = find_func(tree, "_Lagrangian", "eval_gap")
     ebody = strip_logging(eg.body)
     first = ebody[0]
@@ -514,9 +515,10 @@ def lift_egloop(repo):
     emit("`h_value = h_error + h_gamma.dot(lambda_vec)` (note: WITHOUT the `- lambda.bound` term of the Lagrangian)",
          "hValue (hError gammaDotLambda : Rat) : Rat", term)
     meta["h_value"] = ast.unparse(hv.value)
-    sel = one([n for n in bb if isinstance(n, ast.If) and ast.unparse(n.test) == "not self.hs.empty"], "`if not self.hs.empty`")
-    sb = [ast.unparse(n) for n in sel.body]
-    so = [ast.unparse(n) for n in sel.orelse]
+    # normalize.parse has turned `if not self.hs.empty: A else: B` into `if self.hs.empty: B else: A`
+    sel = one([n for n in bb if isinstance(n, ast.If) and ast.unparse(n.test) == "self.hs.empty"], "`if not self.hs.empty`")
+    sb = [ast.unparse(n) for n in sel.orelse]
+    so = [ast.unparse(n) for n in sel.body]
     if sb != ["values = self.errors + self.gammas.transpose().dot(lambda_vec)", "best_idx = values.idxmin()",
               "best_value = values[best_idx]"] or so != ["best_idx = -1", "best_value = np.inf"]:
         raise U(f"best stored value computation changed: {sb} / {so}")
@@ -630,7 +632,7 @@ class MExpr:
 @translate.lifter
 def lift_linprog(repo):
     src = open(os.path.join(repo, LAG_FILE)).read()
-    tree = ast.parse(src)
+    tree = normalize.parse(src)
     fn = find_func(tree, "_Lagrangian", "solve_linprog")
     canonicalise(fn, LP_RULES)
     body = strip_logging(fn.body)
